@@ -102,6 +102,11 @@ def run(chk):
                 for k in range(nseeds):
                     stress.append({"graph": graph, "goroutines": 16, "per_g": 20 if quick else 120, "seed": seed * 1000 + k,
                                    "warm": warm, "global": glob, "log": False})
+    # many message types of one package that share one enum (each refers to it, none owns it), cold: while some goroutines
+    # are inside calls on types they have used before, others use further types for the first time
+    wide = {"T%02d" % i: {"pkg": "w.v1", "children": []} for i in range(40)}
+    for k in range(3 if quick else 12):
+        stress.append({"graph": wide, "goroutines": 8, "per_g": 60, "seed": seed * 700 + k, "warm": False, "global": False, "enums": True})
     res = chk.replay("c10stress", stress, "stress", workers=4, timeout="120s", race=True, env={"GORACE": "halt_on_error=1"})
     chk.absorb("c10stress", stress, res, crash_sig=race_sig)
     chk.extra_cov["stress_runs"] = len(stress)
